@@ -325,7 +325,7 @@ def run_program(prog):
         except KeyError as exc:
             mexc = exc
         try:
-            with seq.captured():
+            with seq.captured(), seq.watchdog():
                 real.apply(st)
         except Exception as exc:
             rexc = exc
@@ -373,7 +373,7 @@ def search(first, depth, res, reduced_after):
         return
     seen = {model.state()}
     frontier = collections.deque([prog0])
-    while frontier:
+    while frontier and not res.get('abort'):
         prog = frontier.popleft()
         if len(prog) >= depth:
             continue
